@@ -622,6 +622,64 @@ func (m *multiSim) rejections() {
 	_ = m.out.Encode(line)
 }
 
+// rollbackD: the operator of the disk node stops it, rolls the store back a few heights (offline maintenance), starts it again
+// and lets it catch up from A's archive: the replayed blocks must come out with the certified headers
+func (m *multiSim) rollbackD() {
+	A, D := m.nodes["A"], m.nodes["D"]
+	top := A.height()
+	ver := D.st.Version()
+	if ver < 5 {
+		return
+	}
+	target := ver - 2 - uint64(m.rng.Intn(2))
+	line := ChainLine{Kind: "sync", Run: m.run, Height: target, Note: fmt.Sprintf("rollback %d -> %d", ver, target), Hdrs: []HdrRec{}}
+	if e := D.st.Rollback(target); e != nil {
+		line.Hdrs = append(line.Hdrs, hdrRec("D", "rollback", nil, nil, e))
+		_ = m.out.Encode(line)
+		return
+	}
+	if e := m.restartD(); e != nil {
+		line.Hdrs = append(line.Hdrs, hdrRec("D", "restart-after-rollback", nil, nil, e))
+		_ = m.out.Encode(line)
+		return
+	}
+	D = m.nodes["D"]
+	for h := D.height(); h < top; h++ {
+		store.VerifPurgeBlockCache()
+		line := ChainLine{Kind: "sync", Run: m.run, Height: h, Note: "after-rollback", Hdrs: []HdrRec{}}
+		qc, e := A.st.GetQCByHeight(h)
+		if e != nil {
+			return
+		}
+		orig, _ := A.c.FSM.LoadBlock(h)
+		store.VerifPurgeBlockCache()
+		_, e = D.c.HandlePeerBlock(&lib.BlockMessage{ChainId: 1, BlockAndCertificate: qc}, false)
+		var ge error
+		var hdr *lib.BlockHeader
+		if e != nil {
+			ge = e
+		} else if bres, e2 := D.c.FSM.LoadBlock(h); e2 == nil && bres != nil {
+			hdr = bres.BlockHeader
+		}
+		if orig != nil {
+			ra := hdrRec("A", "commit-proposer", orig.BlockHeader, nil, nil)
+			if h+1 == top { // back at the tip: the whole state must be the proposer's again
+				ra.Digest = A.digest()
+			}
+			line.Hdrs = append(line.Hdrs, ra)
+		}
+		rec := hdrRec("D", "replay-after-rollback", hdr, nil, ge)
+		if e == nil {
+			rec.Digest = D.digest()
+		}
+		line.Hdrs = append(line.Hdrs, rec)
+		_ = m.out.Encode(line)
+		if e != nil {
+			return
+		}
+	}
+}
+
 // syncFresh: a fresh node replays A's archive from genesis
 func (m *multiSim) syncFresh() {
 	A := m.nodes["A"]
@@ -696,6 +754,7 @@ func multiRandom(seed int64, runs, blocks int, out *json.Encoder) error {
 			}
 		}
 		if ok {
+			m.rollbackD()
 			m.syncFresh()
 		}
 		_ = out.Encode(ChainLine{Kind: "end", Run: r, Hdrs: []HdrRec{}})
